@@ -839,7 +839,7 @@ fn shared_model_predict(c: &mut Case) {
 fn main() {
     runner::main(Spec {
         property: "C20",
-        rule: "a case is a random program of 1..8 matrix/vector operations (same generator as C03, shapes 1..8, nine value kinds incl. all-negative / all-positive / mixed sign, row and column vectors, results of transposes kept as non-standard-layout operands) executed step by step on DenseMatrix, ndarray::Array2 and nalgebra::DMatrix; every backend's result is compared with the row-major reference model after every step (and the backends with each other where the model leaves the value open); non-trivial = at least one step compared; distinct = hash of registers + program; in half of the programs every ndarray matrix / vector register starts in a drawn owned memory layout (row offset or column cut by slicing in place, column-major, negative stride, stride 2) with the same logical content, likewise the inputs of half of the estimator and decomposition cases; scale_mut also gets exactly-zero divisors (value left open, NaN / infinity pattern must agree across backends); shared_model_predict: one k-means model fitted on the built-in matrix labels the same rows identically on all backends",
+        rule: "a case is a random program of 1..8 matrix/vector operations (same generator as C03, shapes 1..8, nine value kinds incl. all-negative / all-positive / mixed sign, row and column vectors, results of transposes kept as non-standard-layout operands) executed step by step on DenseMatrix, ndarray::Array2 and nalgebra::DMatrix; every backend's result is compared with the row-major reference model after every step (and the backends with each other where the model leaves the value open); non-trivial = at least one step compared; distinct = hash of registers + program; in half of the programs every ndarray matrix / vector register starts in a drawn owned memory layout (row offset or column cut by slicing in place, column-major, negative stride, stride 2) with the same logical content, likewise the inputs of half of the estimator and decomposition cases; scale_mut also gets exactly-zero divisors (value left open, NaN / infinity pattern must agree across backends); shared_model_predict: one k-means model fitted on the built-in matrix labels the same rows identically on all backends; program_large: programs over shapes up to 48x48 and long thin operands of 1025..1500 entries; copy_row_as_vec / copy_col_as_vec receivers are 0, 1 or 3 entries longer than needed",
         assumptions: vec![
             "after every step each backend's result object is overwritten entry-wise (through `set`) with the dense backend's observed value, so all backends always see identical data while keeping their own memory layout",
             "tolerances as in C03 (8·k·eps·forward-error scale per entry; structural operations exact)",
@@ -847,7 +847,7 @@ fn main() {
         families: vec![
             Family::new("program", 20000, 300000, program),
             Family::new("program_small", 10000, 150000, program_small),
-            Family::new("program_large", 600, 12000, program_large),
+            Family::new("program_large", 300, 6000, program_large),
             Family::new("decompositions", 3000, 60000, decompositions),
             Family::new("estimators", 2600, 52000, estimators),
             Family::new("shared_model_predict", 1500, 30000, shared_model_predict),
